@@ -7,7 +7,8 @@ EXPLANATION = ("Thin claim. Decides on the MIR of the current tree only the skel
                "clears the pending operation and schedules (U2); the scheduler re-activates yielded threads except the one just chosen, seeds "
                "them as Thread::Yield, and branch_thread promotes one when nothing else can run (U3); loads consult is_seen_before_yield only "
                "to drop a store for which a newer one exists (U4); the yield bookkeeping does not survive into the next execution (U5); an unbounded loop hits the documented branch-capacity panic instead of "
-               "being cut off silently (B3). Progress and completeness of the yield pruning are runtime properties and are not decided.")
+               "being cut off silently (B3). Progress and completeness of the yield pruning are runtime properties and are not decided."
+               " G0/G1 cross-check the yield step.")
 RULE_TEXT = "rule instances = yield steps, scheduler seeding, pruning guard; non-trivial when matched to concrete MIR sites"
 LEVEL_NOTE = "thin claim: structural skeleton only"
 
